@@ -14,16 +14,16 @@ of coefficient `t` of the limb column `c` at radix `2^b` (last limb weight 1), s
        plaintext limbs as they are; since the repair they assert equal radices (as `glwe_encrypt_pk`
        always did), so such a call is a panic (`encrypt_sk_radix_mismatch_panics`) and
        `glwe_encrypt_sk_phase` carries the hypothesis `ptB = b`.  Decryption converts radices.
-   (2) `glwe_encrypt_pk_phase`: phase − m = u⋆e_pk + e_0 + Σ e_i⋆s_i (mod 1).  Proved: the column
-       identity `glwe_encrypt_pk_columns_partial` (every column is u⋆pk_i + e_i (+ m) exactly mod 1)
-       and the norm inequality `negMul_norm_inequality`; the re-association
-       (u⋆pk_i)⋆s_i = u⋆(pk_i⋆s_i) needs associativity/commutativity of `Hal.negMul`, which the C09
-       slice proves for its copy of the product; not imported here.
+   (2) public-key encryption: proved for a public key with the ciphertext's number of limbs
+       (`glwe_encrypt_pk_phase`, `glwe_encrypt_pk_error`); for `size_pk ≠ size` the columns are only within
+       one unit (tied and oracle-checked, not proved).
    (3) decryption into a plaintext of a different radix: `glwe_decrypt_value_modulo_norm` assumes the
        value property `NormSpec` of the cross-radix `vec_znx_big_normalize` (C08 states it as
        `normalize_cross_value`, not proved there either; the executable model is fully tied). -/
 -/
 import Poulpy.Lemmas.CoreEncLwe
+import Poulpy.Lemmas.CoreEncHead
+import Poulpy.Lemmas.CoreEncPk4
 
 namespace C01
 open NormL CoreEnc
@@ -208,7 +208,7 @@ example : Core.glweDecrypt 64 { base2k := 3, k := 6, n := 1, cols := [[[1], [3]]
 /-- **encrypt-then-decrypt, secret key, same radix**: the decryption of a fresh ciphertext
 represents `message + e·2^-((limb+1)b)` within one unit of the plaintext's last limb (exactly when
 the plaintext has at least as many limbs as the ciphertext). -/
-theorem glwe_encrypt_decrypt_sk {bits b n size kxe k : Nat} {H E M : Int}
+theorem glwe_encrypt_decrypt_sk_of_headroom {bits b n size kxe k : Nat} {H E M : Int}
     (hbits : bits = 64 ∨ bits = 128) (hr : HeadRoom bits b 0 H) (hb1 : 1 ≤ b) (hb : b ≤ 61)
     (hk : 1 ≤ kxe) (hlimb : errLimb kxe b < size)
     (masks : List Col) (sk : List Poly) (m : Option Col) (e : Poly)
@@ -236,7 +236,7 @@ theorem glwe_encrypt_decrypt_sk {bits b n size kxe k : Nat} {H E M : Int}
   rw [hlenp] at this
   exact torusNear_of_eq this K hK
 
-/-- non-vacuity of `glwe_encrypt_decrypt_sk`: the instance of the first example, decrypted into one limb -/
+/-- non-vacuity of `glwe_encrypt_decrypt_sk_of_headroom`: the instance of the first example, decrypted into one limb -/
 example : ∃ ct pt, Core.glweEncryptSk 128 3 6 2 2 5 [[[1, -2], [3, 0]]] (some [[1, 2]]) 3 [[1, -1]] [1, -1] = some ct ∧
     Core.glweDecrypt 128 ct [[1, -1]] 3 1 = some pt ∧
     ∀ t, t < 2 → TorusNear (Core.valCoeff 3 pt t) (3 * 1)
@@ -244,7 +244,7 @@ example : ∃ ct pt, Core.glweEncryptSk 128 3 6 2 2 5 [[[1, -2], [3, 0]]] (some 
   have hr : HeadRoom 128 3 0 (2 ^ 62) := ⟨by norm_num, by norm_num, by norm_num, by norm_num, by norm_num⟩
   have henc : Core.glweEncryptSk 128 3 6 2 2 5 [[[1, -2], [3, 0]]] (some [[1, 2]]) 3 [[1, -1]] [1, -1]
       = some { base2k := 3, k := 6, n := 2, cols := [[[2, -3], [-2, 2]], [[1, -2], [3, 0]]] } := by rfl
-  obtain ⟨ct, pt, h1, h2, _, _, h5⟩ := glwe_encrypt_decrypt_sk (bits := 128) (b := 3) (n := 2) (size := 2) (kxe := 5) (k := 6)
+  obtain ⟨ct, pt, h1, h2, _, _, h5⟩ := glwe_encrypt_decrypt_sk_of_headroom (bits := 128) (b := 3) (n := 2) (size := 2) (kxe := 5) (k := 6)
     (H := 2 ^ 62) (E := 1) (M := 2) (Or.inr rfl) hr (by norm_num) (by norm_num) (by norm_num) (by decide)
     [[[1, -2], [3, 0]]] [[1, -1]] (some [[1, 2]]) [1, -1] rfl
     (by intro a ha; simp at ha; subst ha; exact ⟨rfl, by intro l hl; simp at hl; rcases hl with rfl | rfl <;> rfl⟩)
@@ -276,6 +276,228 @@ example : ∃ ct pt, Core.glweEncryptSk 128 3 6 2 2 5 [[[1, -2], [3, 0]]] (some 
       simp at hl
       rcases hl with rfl | rfl <;> simp at hx <;> rcases hx with rfl | rfl <;> norm_num)
   exact ⟨ct, pt, h1, h2, h5⟩
+
+/-- **encrypt-then-decrypt, secret key, same radix — input-shape hypotheses only.**  For masks with
+`‖aᵢ‖∞ ≤ A` (fresh masks: `A = 2^(b−1)`), secrets with `2^(b−1) + (Σ‖sᵢ‖₁)·A ≤ H` (the head-room of the
+normalisation, `H = 2^62` for `b ≤ 61`), messages and errors within `rank·2^(b−1) + E + M ≤ 2^62`: the
+decryption of the fresh ciphertext into `ptSize` limbs represents `message + e·2^-((limb+1)b)` within one
+unit of the plaintext's last limb.  No hypothesis about intermediate values is left: the head-room of
+the products and of the exact phase is derived from the norm inequality. -/
+theorem glwe_encrypt_decrypt_sk {bits b n size kxe k : Nat} {H E M A : Int}
+    (hbits : bits = 64 ∨ bits = 128) (hr : HeadRoom bits b 0 H) (hb1 : 1 ≤ b) (hb : b ≤ 61)
+    (hk : 1 ≤ kxe) (hlimb : errLimb kxe b < size)
+    (masks : List Col) (sk : List Poly) (m : Option Col) (e : Poly)
+    (hlen : masks.length = sk.length) (hmasks : ∀ a ∈ masks, a.length = size ∧ WF n a)
+    (hA0 : 0 ≤ A) (hA : ∀ a ∈ masks, Bounded A a) (hnorm : 2 ^ (b - 1) + sumNorm1 sk * A ≤ H)
+    (ptB : Nat) (hradix : m.isSome → ptB = b)
+    (hm : ∀ p, m = some p → WF n p ∧ CoefBounded n M p) (hM0 : 0 ≤ M)
+    (he : e.length = n) (hE0 : 0 ≤ E) (heB : ∀ x ∈ e, |x| ≤ E)
+    (hsum : (masks.length : Int) * 2 ^ (b - 1) + E + M ≤ 2 ^ 62)
+    (ptSize : Nat) :
+    ∃ ct pt, Core.glweEncryptSk bits b k n size kxe masks m ptB sk e = some ct ∧ Core.glweDecrypt bits ct sk b ptSize = some pt ∧
+      pt.length = ptSize ∧ Bounded (2 ^ (b - 1)) pt ∧
+      ∀ t, t < n → TorusNear (Core.valCoeff b pt t) (b * ptSize)
+        (msgCoeff b n size m t + e.getD t 0 * 2 ^ (b * (size - 1 - errLimb kxe b))) (b * size) := by
+  have hP : (0 : Int) < 2 ^ (b - 1) := two_pow_pos _
+  have hs1 : ∀ s ∈ sk, norm1 s * A ≤ H := by
+    intro s hs
+    have hle : norm1 s ≤ sumNorm1 sk := by
+      unfold sumNorm1
+      have hnn : ∀ x ∈ sk.map norm1, 0 ≤ x := by
+        intro x hx; simp only [List.mem_map] at hx; obtain ⟨q, _, rfl⟩ := hx; exact norm1_nonneg q
+      exact List.single_le_sum hnn _ (List.mem_map_of_mem hs)
+    nlinarith
+  have hprod := prodBounded_of_norm masks sk hA hs1
+  refine glwe_encrypt_decrypt_sk_of_headroom (k := k) hbits hr hb1 hb hk hlimb masks sk m e hlen hmasks hprod ptB hradix hm hM0 he hE0 heB hsum ptSize ?_
+  intro ct hct
+  obtain ⟨body, h1, _, _, hbB, _⟩ := glwe_encrypt_sk_phase (k := k) hbits hr hb1 hb hk hlimb masks sk m e hlen hmasks hprod ptB hradix hm hM0 he hE0 heB hsum
+  rw [h1] at hct
+  cases hct
+  rw [phaseBig_eq_fold sk b k n body masks hlen]
+  intro l hl x hx
+  exact le_trans (phaseFold_bounded hA0 sk masks body _ hbB hA l hl x hx) hnorm
+
+example : ∃ ct pt, Core.glweEncryptSk 128 3 6 2 2 5 [[[1, -2], [3, 0]]] (some [[1, 2]]) 3 [[1, -1]] [1, -1] = some ct ∧
+    Core.glweDecrypt 128 ct [[1, -1]] 3 1 = some pt ∧ pt.length = 1 := by
+  have hr : HeadRoom 128 3 0 (2 ^ 62) := ⟨by norm_num, by norm_num, by norm_num, by norm_num, by norm_num⟩
+  obtain ⟨ct, pt, h1, h2, h3, _⟩ := glwe_encrypt_decrypt_sk (bits := 128) (b := 3) (n := 2) (size := 2) (kxe := 5) (k := 6)
+    (H := 2 ^ 62) (E := 1) (M := 2) (A := 3) (Or.inr rfl) hr (by norm_num) (by norm_num) (by norm_num) (by decide)
+    [[[1, -2], [3, 0]]] [[1, -1]] (some [[1, 2]]) [1, -1] rfl
+    (by intro a ha; simp at ha; subst ha; exact ⟨rfl, by intro l hl; simp at hl; rcases hl with rfl | rfl <;> rfl⟩)
+    (by norm_num)
+    (by intro a ha l hl x hx; simp at ha; subst ha; simp at hl; rcases hl with rfl | rfl <;> simp at hx <;> rcases hx with rfl | rfl <;> norm_num)
+    (by simp [sumNorm1, norm1])
+    3 (fun _ => rfl)
+    (by
+      intro p hp; simp at hp; subst hp
+      refine ⟨by intro l hl; simp at hl; subst hl; rfl, ?_⟩
+      intro t _ v hv
+      simp [coefAt] at hv
+      subst hv
+      rcases t with _ | _ | t <;> simp)
+    (by norm_num) rfl (by norm_num)
+    (by intro x hx; simp at hx; rcases hx with rfl | rfl <;> norm_num) (by norm_num) 1
+  exact ⟨ct, pt, h1, h2, h3⟩
+
+/-! ### public-key GLWE encryption -/
+
+/-- **`glwe_encrypt_pk` phase identity (any public key).**  For every ring degree, rank, radix `1 ≤ b ≤ 63`,
+size, noise precision with an existing target limb, public key `pk0 :: pks` with the ciphertext's
+number of limbs, ephemeral secret `u`, errors `e0 :: es`, message of any size, all within head-room
+(`Hp` bounds the products `u⋆pk[i]`, `Hp + E + M ≤ H`, `< 2^63`): the encryption succeeds, every
+column is normalised, and as value polynomials modulo `2^(b·size)`
+`phase_s(ct) = u ⋆ phase_s(pk) + (e_0 + Σ sᵢ⋆eᵢ)·2^(b(size−1−limb)) + m`. -/
+theorem glwe_encrypt_pk_phase {bits b n size kxe k : Nat} {H Hp E M : Int}
+    (hbits : bits = 64 ∨ bits = 128) (hr : HeadRoom bits b 0 H) (hb1 : 1 ≤ b) (hb : b ≤ 63) (hk : 1 ≤ kxe)
+    (hlimb : errLimb kxe b < size)
+    (pk0 : Col) (pks : List Col) (sk : List Poly) (u : Poly) (m : Option Col) (e0 : Poly) (es : List Poly)
+    (hlen : pks.length = sk.length) (hes : pks.length = es.length)
+    (hpk : ∀ pk ∈ pk0 :: pks, pk.length = size ∧ WF n pk ∧ Bounded Hp (Core.colMulPoly u pk))
+    (he : ∀ e ∈ e0 :: es, e.length = n ∧ ∀ x ∈ e, |x| ≤ E)
+    (hm : ∀ p, m = some p → WF n p ∧ CoefBounded n M p)
+    (hHp0 : 0 ≤ Hp) (hE0 : 0 ≤ E) (hM0 : 0 ≤ M) (hsum : Hp + E + M ≤ H) (h63 : Hp + E + M < 2 ^ 63) :
+    ∃ (c0 : Col) (cts : List Col) (Kf : Poly),
+      Core.glweEncryptPk bits b k n size kxe (pk0 :: pks) u m (e0 :: es) = some { base2k := b, k := k, n := n, cols := c0 :: cts } ∧
+      cts.length = pks.length ∧ (∀ c ∈ c0 :: cts, c.length = size ∧ WF n c ∧ Bounded (2 ^ (b - 1)) c) ∧ Kf.length = n ∧
+      valPoly b n (Core.phaseBig sk { base2k := b, k := k, n := n, cols := c0 :: cts }) =
+        Hal.polyAdd (Hal.polyAdd (Hal.polyAdd
+          (Hal.negMul u (valPoly b n (Core.phaseBig sk { base2k := b, k := k, n := n, cols := pk0 :: pks })))
+          (Hal.polyScale (2 ^ (b * (size - 1 - errLimb kxe b))) (linComb sk es e0)))
+          (msgPoly b n size m))
+          (Hal.polyScale (2 ^ (b * size)) Kf) :=
+  encryptPk_phase hbits hr hb1 hb hk hlimb pk0 pks sk u m e0 es hlen hes hpk he hm hHp0 hE0 hM0 hsum h63
+
+/-- non-vacuity: N = 2, rank 1, radix 2^3, two limbs -/
+example : ∃ (c0 : Col) (cts : List Col), Core.glweEncryptPk 64 3 6 2 2 5 [[[2, -3], [-2, 2]], [[1, -2], [3, 0]]] [1, 1] (some [[1, 2]]) [[1, 0], [0, -1]]
+    = some { base2k := 3, k := 6, n := 2, cols := c0 :: cts } := by
+  have hr : HeadRoom 64 3 0 (2 ^ 62) := ⟨by norm_num, by norm_num, by norm_num, by norm_num, by norm_num⟩
+  obtain ⟨c0, cts, _, h1, _⟩ := glwe_encrypt_pk_phase (bits := 64) (b := 3) (n := 2) (size := 2) (kxe := 5) (k := 6)
+    (H := 2 ^ 62) (Hp := 8) (E := 1) (M := 2) (Or.inl rfl) hr (by norm_num) (by norm_num) (by norm_num) (by decide)
+    [[2, -3], [-2, 2]] [[[1, -2], [3, 0]]] [[1, -1]] [1, 1] (some [[1, 2]]) [1, 0] [[0, -1]] rfl rfl
+    (by
+      intro pk hpk
+      simp at hpk
+      rcases hpk with rfl | rfl
+      · refine ⟨rfl, by intro l hl; simp at hl; rcases hl with rfl | rfl <;> rfl, ?_⟩
+        have : Core.colMulPoly [1, 1] [[2, -3], [-2, 2]] = [[5, -1], [-4, 0]] := by decide
+        rw [this]; intro l hl x hx; simp at hl; rcases hl with rfl | rfl <;> simp at hx <;> rcases hx with rfl | rfl <;> norm_num
+      · refine ⟨rfl, by intro l hl; simp at hl; rcases hl with rfl | rfl <;> rfl, ?_⟩
+        have : Core.colMulPoly [1, 1] [[1, -2], [3, 0]] = [[3, -1], [3, 3]] := by decide
+        rw [this]; intro l hl x hx; simp at hl; rcases hl with rfl | rfl <;> simp at hx <;> rcases hx with rfl | rfl <;> norm_num)
+    (by intro e he; simp at he; rcases he with rfl | rfl <;> exact ⟨rfl, by intro x hx; simp at hx; rcases hx with rfl | rfl <;> norm_num⟩)
+    (by
+      intro p hp; simp at hp; subst hp
+      refine ⟨by intro l hl; simp at hl; subst hl; rfl, ?_⟩
+      intro t _ v hv
+      simp [coefAt] at hv
+      subst hv
+      rcases t with _ | _ | t <;> simp)
+    (by norm_num) (by norm_num) (by norm_num) (by norm_num) (by norm_num)
+  exact ⟨c0, cts, h1⟩
+
+/-- **public-key encryption under a fresh key: error expression `u⋆e_pk + e_0 + Σ eᵢ⋆sᵢ` and its bound.**
+If the public key is a zero-encryption under `sk` with error `epk` on the limb of precision `kpk`
+(the conclusion of `glwe_encrypt_sk_phase` with no message: `hfresh`), then for every coefficient
+`phase_s(ct)_t = m_t + (u⋆e_pk)_t·U_pk + (e_0 + Σ sᵢ⋆eᵢ)_t·U + K·2^(b·size)`, and the error term is at most
+`‖u‖₁·E_pk·U_pk + (1 + Σ‖sᵢ‖₁)·E·U` — for `U_pk = U`, `E_pk = E` this is `E·U·(1 + ‖u‖₁ + Σ‖sᵢ‖₁)`, i.e.
+`bound·2^-k·(1 + ‖u‖₁ + Σ‖sᵢ‖₁)` on the torus by `glwe_encrypt_sk_noise_bound`. -/
+theorem glwe_encrypt_pk_error {bits b n size kxe kpk k : Nat} {H Hp E Epk M : Int}
+    (hbits : bits = 64 ∨ bits = 128) (hr : HeadRoom bits b 0 H) (hb1 : 1 ≤ b) (hb : b ≤ 63) (hk : 1 ≤ kxe)
+    (hlimb : errLimb kxe b < size)
+    (pk0 : Col) (pks : List Col) (sk : List Poly) (u : Poly) (m : Option Col) (e0 : Poly) (es : List Poly) (epk : Poly)
+    (hlen : pks.length = sk.length) (hes : pks.length = es.length)
+    (hpk : ∀ pk ∈ pk0 :: pks, pk.length = size ∧ WF n pk ∧ Bounded Hp (Core.colMulPoly u pk))
+    (he : ∀ e ∈ e0 :: es, e.length = n ∧ ∀ x ∈ e, |x| ≤ E)
+    (hepk : epk.length = n ∧ ∀ x ∈ epk, |x| ≤ Epk)
+    (hm : ∀ p, m = some p → WF n p ∧ CoefBounded n M p)
+    (hHp0 : 0 ≤ Hp) (hE0 : 0 ≤ E) (hEpk0 : 0 ≤ Epk) (hM0 : 0 ≤ M) (hsum : Hp + E + M ≤ H) (h63 : Hp + E + M < 2 ^ 63)
+    (hfresh : ∀ t, t < n → ∃ K : Int, Core.valCoeff b (Core.phaseBig sk { base2k := b, k := k, n := n, cols := pk0 :: pks }) t =
+      epk.getD t 0 * 2 ^ (b * (size - 1 - errLimb kpk b)) + K * 2 ^ (b * size)) :
+    ∃ ct, Core.glweEncryptPk bits b k n size kxe (pk0 :: pks) u m (e0 :: es) = some ct ∧
+      ∀ t, t < n → ∃ K : Int,
+        Core.valCoeff b (Core.phaseBig sk ct) t = msgValO b size t m
+          + ((Hal.negMul u epk).getD t 0 * 2 ^ (b * (size - 1 - errLimb kpk b))
+             + (linComb sk es e0).getD t 0 * 2 ^ (b * (size - 1 - errLimb kxe b)))
+          + K * 2 ^ (b * size) ∧
+        |(Hal.negMul u epk).getD t 0 * 2 ^ (b * (size - 1 - errLimb kpk b))
+            + (linComb sk es e0).getD t 0 * 2 ^ (b * (size - 1 - errLimb kxe b))|
+          ≤ norm1 u * Epk * 2 ^ (b * (size - 1 - errLimb kpk b)) + (1 + sumNorm1 sk) * E * 2 ^ (b * (size - 1 - errLimb kxe b)) := by
+  obtain ⟨c0, cts, Kf, h1, _, _, hKf, h5⟩ := glwe_encrypt_pk_phase (k := k) hbits hr hb1 hb hk hlimb pk0 pks sk u m e0 es hlen hes hpk he hm hHp0 hE0 hM0 hsum h63
+  refine ⟨_, h1, ?_⟩
+  -- the fresh key as a polynomial identity
+  have hfp : ∀ t, t < n → ∃ K : Int, (valPoly b n (Core.phaseBig sk { base2k := b, k := k, n := n, cols := pk0 :: pks })).getD t 0 =
+      (Hal.polyScale (2 ^ (b * (size - 1 - errLimb kpk b))) epk).getD t 0 + K * 2 ^ (b * size) := by
+    intro t ht
+    obtain ⟨K, hK⟩ := hfresh t ht
+    refine ⟨K, ?_⟩
+    rw [valPoly_getD _ _ _ t ht, ← valCoeff_eq, hK, polyScale_getD]; ring
+  obtain ⟨Kp, hKpl, hKp⟩ := cong_poly (n := n) (M := 2 ^ (b * size)) (ne_of_gt (two_pow_pos _)) _ _ (by simp) (by simp [hepk.1]) hfp
+  have hel : ∀ v ∈ es, v.length = n := fun v hv => (he v (by simp [hv])).1
+  have hll : (linComb sk es e0).length = n := linComb_length n sk es e0 (he e0 (by simp)).1 hel
+  intro t ht
+  have hval := congrArg (fun p => p.getD t 0) h5
+  replace hval : (valPoly b n (Core.phaseBig sk { base2k := b, k := k, n := n, cols := c0 :: cts })).getD t 0 = _ := hval
+  rw [valPoly_getD _ _ _ t ht, ← valCoeff_eq, hKp, Hal.negMul_add_right _ _ _ (by simp [hepk.1, hKpl]),
+    Hal.ep_negMul_scale_right, Hal.ep_negMul_scale_right] at hval
+  rw [polyAdd_getD _ _ n t (by simp [Hal.negMul_length, hepk.1, hKpl, hll, msgPoly]) (by simp [hKf]),
+    polyAdd_getD _ _ n t (by simp [Hal.negMul_length, hepk.1, hKpl, hll]) (by simp [msgPoly]),
+    polyAdd_getD _ _ n t (by simp [Hal.negMul_length, hepk.1, hKpl]) (by simp [hll]),
+    polyAdd_getD _ _ n t (by simp [Hal.negMul_length, hepk.1]) (by simp [Hal.negMul_length, hKpl]),
+    polyScale_getD, polyScale_getD, polyScale_getD, polyScale_getD] at hval
+  refine ⟨(Hal.negMul u Kp).getD t 0 + Kf.getD t 0, ?_, ?_⟩
+  · rw [hval]
+    simp [msgPoly, List.getD_eq_getElem?_getD, ht]
+    ring
+  · have h1' := getD_bound (mul_nonneg (norm1_nonneg u) hEpk0) _ (negMul_bound u epk hepk.2) t
+    have h2' := getD_bound (by have := sumNorm1_nonneg sk; nlinarith) _
+      (linComb_bounded hE0 sk es e0 E (he e0 (by simp)).2 (fun v hv => (he v (by simp [hv])).2)) t
+    have hU1 : (0 : Int) < 2 ^ (b * (size - 1 - errLimb kpk b)) := two_pow_pos _
+    have hU2 : (0 : Int) < 2 ^ (b * (size - 1 - errLimb kxe b)) := two_pow_pos _
+    have a1 := abs_add_le ((Hal.negMul u epk).getD t 0 * 2 ^ (b * (size - 1 - errLimb kpk b))) ((linComb sk es e0).getD t 0 * 2 ^ (b * (size - 1 - errLimb kxe b)))
+    rw [abs_mul, abs_mul, abs_of_pos hU1, abs_of_pos hU2] at a1
+    have b1 := mul_le_mul_of_nonneg_right h1' (le_of_lt hU1)
+    have b2 := mul_le_mul_of_nonneg_right h2' (le_of_lt hU2)
+    have : (E + sumNorm1 sk * E) = (1 + sumNorm1 sk) * E := by ring
+    rw [this] at b2
+    linarith
+
+/-- non-vacuity of `glwe_encrypt_pk_error`: the instance above; the key's phase is `[9, −49]` at the last limb -/
+example : ∃ ct, Core.glweEncryptPk 64 3 6 2 2 5 [[[2, -3], [-2, 2]], [[1, -2], [3, 0]]] [1, 1] (some [[1, 2]]) [[1, 0], [0, -1]] = some ct := by
+  have hr : HeadRoom 64 3 0 (2 ^ 62) := ⟨by norm_num, by norm_num, by norm_num, by norm_num, by norm_num⟩
+  obtain ⟨ct, h1, _⟩ := glwe_encrypt_pk_error (bits := 64) (b := 3) (n := 2) (size := 2) (kxe := 5) (kpk := 5) (k := 6)
+    (H := 2 ^ 62) (Hp := 8) (E := 1) (Epk := 49) (M := 2) (Or.inl rfl) hr (by norm_num) (by norm_num) (by norm_num) (by decide)
+    [[2, -3], [-2, 2]] [[[1, -2], [3, 0]]] [[1, -1]] [1, 1] (some [[1, 2]]) [1, 0] [[0, -1]] [9, -49] rfl rfl
+    (by
+      intro pk hpk
+      simp at hpk
+      rcases hpk with rfl | rfl
+      · refine ⟨rfl, by intro l hl; simp at hl; rcases hl with rfl | rfl <;> rfl, ?_⟩
+        have : Core.colMulPoly [1, 1] [[2, -3], [-2, 2]] = [[5, -1], [-4, 0]] := by decide
+        rw [this]; intro l hl x hx; simp at hl; rcases hl with rfl | rfl <;> simp at hx <;> rcases hx with rfl | rfl <;> norm_num
+      · refine ⟨rfl, by intro l hl; simp at hl; rcases hl with rfl | rfl <;> rfl, ?_⟩
+        have : Core.colMulPoly [1, 1] [[1, -2], [3, 0]] = [[3, -1], [3, 3]] := by decide
+        rw [this]; intro l hl x hx; simp at hl; rcases hl with rfl | rfl <;> simp at hx <;> rcases hx with rfl | rfl <;> norm_num)
+    (by intro e he; simp at he; rcases he with rfl | rfl <;> exact ⟨rfl, by intro x hx; simp at hx; rcases hx with rfl | rfl <;> norm_num⟩)
+    ⟨rfl, by intro x hx; simp at hx; rcases hx with rfl | rfl <;> norm_num⟩
+    (by
+      intro p hp; simp at hp; subst hp
+      refine ⟨by intro l hl; simp at hl; subst hl; rfl, ?_⟩
+      intro t _ v hv
+      simp [coefAt] at hv
+      subst hv
+      rcases t with _ | _ | t <;> simp)
+    (by norm_num) (by norm_num) (by norm_num) (by norm_num) (by norm_num) (by norm_num)
+    (by
+      have hph : Core.phaseBig [[1, -1]] { base2k := 3, k := 6, n := 2, cols := [[[2, -3], [-2, 2]], [[1, -2], [3, 0]]] } = [[1, -6], [1, -1]] := by
+        decide
+      intro t ht
+      refine ⟨0, ?_⟩
+      rw [hph]
+      rcases t with _ | _ | t
+      · decide
+      · decide
+      · omega)
+  exact ⟨ct, h1⟩
 
 /-! ### LWE -/
 
